@@ -39,8 +39,10 @@ class Parser:
 
     def ast(self, expression, context=None):
         try:
-            match = self.is_formula(expression.replace('\n', '')).groupdict()
-            expr = match['name']
+            for c in '\n\r\t':  # Whitespace like a blank.
+                expression = expression.replace(c, ' ')
+            match = self.is_formula(expression).groupdict()
+            expr = match['name'].rstrip()
         except (AttributeError, KeyError):
             raise FormulaError(expression)
         builder = self.ast_builder(match=match)
